@@ -118,6 +118,19 @@ CHECKS = {
          "judged by the semantic oracle only). Semantic invariance under the renaming is argued from the alpha check, not proved end-to-end.",
     technique="Coq proof (binding function, renaming validator) + exact emission correspondence + ORT(m) vs ORT(build(inline m)) oracle",
     ref="4 C08"),
+
+ "C09": dict(
+    text="PROOF (coq/props/C09.v): algorithmic proofs about max_opset_policy itself - exactly one import per domain (sortedness "
+         "invariant of the insertion), the imported version is the maximum required for the domain and is required by something, every "
+         "requirement is covered; default domain never below 14 in a returned model; which nodes are handed to the converter (never "
+         "another domain, never a node already at the imported version). CORRESPONDENCE: imports of model and functions (exact), set "
+         "of conversion decisions (recorded by wrapping adapt_node) vs Adapt.decisions with the schema-difference table regenerated "
+         "from SCHEMAS each run, full rendering when nothing is converted. ORACLE: imports recomputed from the object graph, full "
+         "checker + onnxruntime load, onnxruntime on the mixed-version build vs a single-version build of the same recipe.",
+    note=TB + "Assumed: onnx.version_converter preserves operator meaning and produces valid nodes (oracle; judged by execution). "
+         "'Mixed programs always build' is validated, not proved (the converter can fail: see DESIGN F9a-c).",
+    technique="Coq proof (opset policy, adaptation decision) + decision/import correspondence + mixed-vs-single-version ORT oracle",
+    ref="4 C09"),
  "C10": dict(
     text="PROOF (coq/props/C10.v): decode(encode t) = t for all 26 element types, shapes and payloads (bit patterns; induction over "
          "payloads); attribute kind checking; captured-at-call for every caller-side mutation history (heap model, privacy invariant); "
